@@ -353,7 +353,11 @@ func (db *DB) exist(o Object) (ok bool, err error) {
 	if os.IsNotExist(err) {
 		return false, nil
 	}
-	return stat.Mode().IsRegular() && err == nil, nil
+	// stat is nil on any other error (invalid or too long name ...)
+	if err != nil {
+		return false, err
+	}
+	return stat.Mode().IsRegular(), nil
 }
 
 func (db *DB) writeObject(o Object) (err error) {
